@@ -120,7 +120,7 @@ def mc_text(ctx, max_wraps):
     body += "MCLams == {R(1, 2), R(2, 1)}\nMCUnitaries == {\n " + ",\n ".join(unitaries()) + "}\n"
     body += "MCAlphas == {R(1, 2), R(1, 1), R(2, 1)}\nMCPoints == {\n " + ",\n ".join(P) + "}\n"
     cfg = ("INIT Init\nNEXT Next\nCONSTANTS\n Bases <- MCBases\n StackBases <- MCStackBases\n Lams <- MCLams\n Unitaries <- MCUnitaries\n Alphas <- MCAlphas\n Points <- MCPoints\n"
-           " MaxWraps = %d\n SqrtBound = 2000\n" % max_wraps + "".join("INVARIANT %s\n" % i for i in INVS))
+           " MaxWraps = %d\n MaxStackSize = 6\n SqrtBound = 2000\n" % max_wraps + "".join("INVARIANT %s\n" % i for i in INVS))
     return body, cfg
 
 
@@ -158,7 +158,7 @@ def factorizations(n):
 def expr_size(e):
     k = e["k"]
     if k == "Stack":
-        return expr_size(e["s"][0]) + expr_size(e["s"][1])
+        return sum(expr_size(c) for c in e["s"])
     if k in ("Conj", "L2RegH"):
         return expr_size(e["s"][0])
     if k == "Unitary":
@@ -219,9 +219,15 @@ def build(sp, e, shape, cplx):
     if k == "Conj":
         return P.Conj(build(sp, e["s"][0], shape, cplx))
     if k == "Stack":
-        n1, n2 = expr_size(e["s"][0]), expr_size(e["s"][1])
-        s1 = [n1] if has_kind(e["s"][0], {"Stack", "Unitary"}) else group_shape(e["s"][0]) if has_kind(e["s"][0], {"L2ProjG"}) else factorizations(n1)[min(1, len(factorizations(n1)) - 1)]
-        return P.Stack([build(sp, e["s"][0], s1, cplx), build(sp, e["s"][1], [n2], cplx)])
+        members = []
+        for j, c_ in enumerate(e["s"]):
+            nj = expr_size(c_)
+            if j == len(e["s"]) - 1 or (len(e["s"]) == 3 and j == 0):       # the partners offered by WrapStack are 1-D
+                sj = [nj]
+            else:
+                sj = [nj] if has_kind(c_, {"Stack", "Unitary"}) else group_shape(c_) if has_kind(c_, {"L2ProjG"}) else factorizations(nj)[min(1, len(factorizations(nj)) - 1)]
+            members.append(build(sp, c_, sj, cplx))
+        return P.Stack(members)
     if k == "Unitary":
         U = np.array([[cval(c) for c in row] for row in e["m"][0]], dtype=np.complex128)
         if not np.iscomplexobj(U) or np.all(U.imag == 0):
@@ -291,13 +297,19 @@ def check_eval(sp, st):
             if not np.allclose(np.asarray(x).ravel(), exp, atol=1e-11 * scale, rtol=0):
                 res.append((["C11"], "value", "%s alpha=%s y=%s shape %s: got %s, minimiser %s" % (summary(e), al, [str(cval(c)) for c in y], shape, np.asarray(x).ravel()[:6], exp[:6])))
             # the same point in another memory layout (Fortran order, strided view): same minimiser, input untouched
-            for lab, yl in core.layouts(yv):
+            variants_ = list(core.layouts(yv))
+            if not cplx and np.all(yv == np.round(yv)):
+                # a real point with whole-number entries as a caller may hold it: an integer array (counts, labels, masks)
+                variants_.append(("int64", yv.astype(np.int64)))
+            for lab, yl in variants_:
                 yl0 = yl.copy()
                 try:
                     with warnings.catch_warnings():
                         warnings.simplefilter("ignore")
                         xl = P(al, yl)
                 except Exception as ex:
+                    if lab == "int64":
+                        continue      # (L2Reg rejects integer arrays loudly on the unchanged tree: a rejection is tolerated, a wrong value is not)
                     res.append((["C11"], "exception", "%s shape %s %s input: P(alpha, y) raised %r" % (summary(e), shape, lab, ex)))
                     continue
                 if tuple(np.shape(xl)) != tuple(shape) or not np.allclose(np.asarray(xl).ravel(), exp, atol=1e-11 * scale, rtol=0):
